@@ -28,3 +28,8 @@ chk("C10", "model_checking",
     "All histories up to the depth bound over 18 identity-event actions (switch ranges lowered to 2 so that all batchings into identity-update blocks occur). After every block a replica that followed the whole history from genesis without restart, the replica restarted one block earlier, and the ForCheck/Readonly clones are compared with NewValidatorsCache(...).Load() on the same committed identity state over every public getter (sizes, per-address flags, pool sizes, FindSubIdentity for all nonces, committees for 3 seeds x 3 steps x 3 limits); the stored registry is compared with the identity ledger.",
     "State key = chain state + fingerprint of the live view, so histories are merged only when both coincide.",
     "DESIGN.md 5/C10", "chainmc")
+chk("C08", "model_checking",
+    "exhaustive enumeration of chain pairs x certificate shapes fed to the real ForkResolver.processBlocks / ApplyFork, compared with a reference replica that followed the fork",
+    "All (ancestor depth) x (own branch kind sequences) x (fork kind sequences over empty / proposed / with-tx / kill / offline-switch blocks) x 7 tip certificate shapes x 3 interior certificate policies x tampering (wrong root, missing height) up to the length bound. Oracles: accepted => every block valid on a reference replica, tip certified, identity-update blocks certified; adoption == reference (head, roots, validator view, canonical hashes, stored identity diffs, tx index, abandoned headers gone); reverted tx list exact; refusal leaves the database untouched; panics are violations.",
+    "Committee {V1,V2,P} (threshold 2) on a G2 chain; certificates signed with the fixed keys; quorum arithmetic itself is C07's subject.",
+    "DESIGN.md 5/C08", "enum+replica")
